@@ -74,6 +74,8 @@ theorem lockPrelude_ok_looked (h k : Nat) : ∀ (fuel : Nat) (a : Api) (limit : 
         | panic => simp [hfin] at hok
         | err => simp [hfin] at hok
         | latePanic => simp [hfin] at hok
+        | pendOk => simp [hfin] at hok
+        | pendErr => simp [hfin] at hok
         | ok =>
           simp only [hfin] at hok ⊢
           have hi2 := inv_runActs (c :: cs) { a with s := (step a.s (.limitLookup h k n (List.range' h0 supplyLen))).1 }
